@@ -7,6 +7,7 @@ against CPython."""
 from __future__ import annotations
 import ast
 import z3
+from .contracts import Clause
 from .values import (U, IntS, BoolS, MS, TRUTHY, NONE_U, V, VInt, VBool, VNone,
                      VU, VRef, VOpt, VTuple, VList, VDict, VIter, VFunc,
                      VStream, VModule, VExc, sort_of_shape, wrap)
@@ -939,10 +940,33 @@ class Lib:
         v = self.eng.eval(st, node.args[0])
         return VStream(self.stream_model().stream_of(st, v))
 
+    def _dict_order_facts(self, st, d):
+        """the iteration order of a (finite) dict enumerates its key set:
+        KSEQ(dom, i), i < KN(dom), is a bijection onto the keys (same facts
+        as DictIterModel assumes when the dict is iterated); assumed once per
+        key-set term"""
+        from .models import KSEQ, KIDX, KN
+        done = st.ghost.setdefault("__kfacts", set())
+        if d.dom.get_id() in done:
+            return
+        done.add(d.dom.get_id())
+        dom = d.dom
+        n = KN(dom)
+        i = z3.Const("i!dk", IntS)
+        k = z3.Const("k!dk", U)
+        st.assume(n >= 0)
+        st.assume(z3.ForAll([i], z3.Implies(
+            z3.And(0 <= i, i < n),
+            z3.And(dom[KSEQ(dom, i)], KIDX(dom, KSEQ(dom, i)) == i))))
+        st.assume(z3.ForAll([k], z3.Implies(dom[k], z3.And(
+            0 <= KIDX(dom, k), KIDX(dom, k) < n,
+            KSEQ(dom, KIDX(dom, k)) == k))))
+
     def sp_dictkey(self, st, node):
         """j-th key of a dict in iteration order"""
         from .models import KSEQ
         d = self.eng.eval(st, node.args[0])
+        self._dict_order_facts(st, d)
         j = self.eng.eval(st, node.args[1]).t
         return VU(KSEQ(d.dom, j))
 
@@ -963,12 +987,14 @@ class Lib:
         """position of a key in the iteration order of a dict"""
         from .models import KIDX
         d = self.eng.eval(st, node.args[0])
+        self._dict_order_facts(st, d)
         k = self.eng.coerce(st, self.eng.eval(st, node.args[1]), "U")
         return VInt(KIDX(d.dom, k))
 
     def sp_dictlen(self, st, node):
         from .models import KN
         d = self.eng.eval(st, node.args[0])
+        self._dict_order_facts(st, d)
         return VInt(KN(d.dom))
 
     def sp_digests_list(self, st, node):
@@ -1507,11 +1533,15 @@ class Lib:
                        z3.And(callee_m >= 0, callee_m < caller_m), None)
         st.locals = dict(env)
         try:
+            rv = Clause("True")
+            rv.reveal = tuple((caller.call_reveal if caller is not None
+                               else {}).get(fc.method_name, ()))
             for k, cl in enumerate(fc.requires):
-                eng.oblige(st, f"pre({fc.qualname})", line,
-                           eng.spec_bool(st, cl), cl.props or None,
-                           label=str(k))
-                st.assume(eng.spec_bool(st, cl))
+                t_ = eng.spec_bool(st, cl)
+                eng.oblige(st, f"pre({fc.qualname})", line, t_,
+                           cl.props or None, label=str(k),
+                           extra_hyps=eng.reveal_hyps(st, rv))
+                eng.assume_clause(st, cl, t_)
             for m in fc.modifies:
                 if not m.startswith("ghost:") and m != "*":
                     k_ = m.split("@")[0]
